@@ -351,21 +351,19 @@ Proof.
   repeat match goal with |- context [N.eqb t ?k] => destruct (N.eqb t k) end; reflexivity.
 Qed.
 
-(* LLDP.Capability: the code names the bits of the second octet from the most significant one; 802.1AB numbers them
-   from the least significant one: the code's answer is the spec's answer for the MIRRORED octet, for every value *)
-Definition mirror8 (b : N) : N :=
-  (b mod 2) * 128 + (b / 2 mod 2) * 64 + (b / 4 mod 2) * 32 + (b / 8 mod 2) * 16 +
-  (b / 16 mod 2) * 8 + (b / 32 mod 2) * 4 + (b / 64 mod 2) * 2 + (b / 128 mod 2).
+(* LLDP.Capability (repaired bf5afdb) = 802.1AB table 8-4 for every value *)
 Lemma sweep256s (f g : N -> string) :
   forallb (fun b => String.eqb (f b) (g b)) bytes256 = true -> forall b, b < 256 -> f b = g b.
 Proof.
   intros H b Hb. rewrite forallb_forall in H. specialize (H b (in_bytes256 b Hb)). apply String.eqb_eq. exact H.
 Qed.
-Lemma LLDP_Capability_mirror a r : forall b, b < 256 ->
-  LLDP_Capability_s (a :: b :: r) = lldp_capability_spec (a :: mirror8 b :: r).
-Proof. apply (sweep256s (fun b => LLDP_Capability_s (a :: b :: r)) (fun b => lldp_capability_spec (a :: mirror8 b :: r))). vm_compute. reflexivity. Qed.
-Lemma LLDP_Capability_short v : (List.length v < 2)%nat -> LLDP_Capability_s v = lldp_capability_spec v.
-Proof. destruct v as [|a [|b r]]; cbn; intros H; try reflexivity; lia. Qed.
-Lemma LLDP_Capability_refuted :
-  LLDP_Capability_s [0; 16] = "AP"%string /\ lldp_capability_spec [0; 16] = "router"%string.
-Proof. split; vm_compute; reflexivity. Qed.
+Lemma LLDP_Capability_long a r : forall b, b < 256 ->
+  LLDP_Capability_s (a :: b :: r) = lldp_capability_spec (a :: b :: r).
+Proof. apply (sweep256s (fun b => LLDP_Capability_s (a :: b :: r)) (fun b => lldp_capability_spec (a :: b :: r))). vm_compute. reflexivity. Qed.
+Lemma LLDP_Capability_spec v : bytes_ok v -> LLDP_Capability_s v = lldp_capability_spec v.
+Proof.
+  intros B. destruct v as [|a [|b r]]; try reflexivity. apply LLDP_Capability_long. apply (bytes_ok_nth (a :: b :: r) 1 B).
+Qed.
+Example LLDP_Capability_ex :
+  LLDP_Capability_s [0; 16] = "router"%string /\ LLDP_Capability_s [0; 20] = "bridge,router"%string /\ LLDP_Capability_s [7] = ""%string.
+Proof. repeat split; vm_compute; reflexivity. Qed.
